@@ -18,7 +18,7 @@ PROPS = {
         "assumptions": [RFC_TABLES, "systematic constants: exhaustive over K = 0..56404; tuples: boundary-directed + random X per sampled Table-2 row, in a checked and an unchecked build"],
     },
     "C11": {
-        "thm_modules": ["Rq.Thm.C11"],
+        "thm_modules": ["Rq.Thm.C11", "Rq.Thm.C11b"],
         "engines": [("kernels", "release"), ("kernels", "debug"), ("workload", "release"), ("workload", "debug"), ("slab", "release")],
         "nostd_workload": True,
         "modelled": ["CPU instruction semantics (pshufb per 128-bit lane, srli_epi64, and/xor, masked move, bit extraction) modelled byte-wise from the vendor description", "alignment does not exist in the model (unaligned loads/stores only); swept by the correspondence run", "NEON kernels are not compiled for this host"],
